@@ -24,18 +24,20 @@ MANIFEST = {
             "ghost log of fixup records with the Spec/Offset field decoder; Props/C03B carries them to the monitor's CPU reading "
             "(judgeRel: end of instruction + sign-extended field on x86, pc + field on AArch64, ADRP pages) - what remains evaluated on "
             "every explored program rather than proved is the monitor's own bookkeeping (its Ref records name the same field as the "
-            "model's log; opcode-based field location). References encoded directly against an already bound label: Props/C03D says "
+            "model's log; opcode-based field location) - closed in round 10: Props/C03R simulates the monitor's ghostStep on the model's "
+            "answers (monitor_refs_match, monitor_verdict_x86/_a64) and Props/C03L shows x86BranchField on the final bytes finds the logged "
+            "field (monitor_branch_field); what stays outside Lean is the text protocol between driver dump and monitor. References encoded directly against an already bound label: Props/C03D says "
             "what is written (x86 rel8/rel32, [rip+label], AArch64 EmitOp_DispImm), Props/C03S that those bytes are still there at the end "
             "of every program (direct_field_persists; end to end for x86-64 branches and AArch64: direct_jmp_final, direct_a64_final). Buffer growth, set_offset, named "
             "labels and the Builder path are not modelled. Model follows the repaired code (fixes/C03-1, C03-2).",
 }
 MODS = ["AsmjitVerif.Props.C03", "AsmjitVerif.Props.C03E", "AsmjitVerif.Props.C03B", "AsmjitVerif.Props.C03D", "AsmjitVerif.Props.C03S",
-        "AsmjitVerif.Props.C03N"]
+        "AsmjitVerif.Props.C03N", "AsmjitVerif.Props.C03A64", "AsmjitVerif.Props.C03L", "AsmjitVerif.Props.C03R", "AsmjitVerif.Props.C03O"]
 M64 = (1 << 64) - 1
 
 JK = ["jmp", "jz", "call", "jecxz", "loop"]
 MK = ["lea", "mov", "addi8", "movi32", "cmpi16", "ldeax", "steax", "ldrax", "fsmov", "gsldeax", "fsaddi8"]
-AK = ["b", "bl", "bcond", "cbz", "tbz", "adr", "adrp", "ldr"]
+AK = ["b", "bl", "bcond", "cbz", "tbz", "adr", "adrp", "bc", "ldr"]
 BASES = [0x1000, 0x7FFFF000, 0x80000000, 0xFFFFF000, 1 << 32, (1 << 47) - 4096, 1 << 63, (1 << 64) - 65536]
 
 
@@ -542,7 +544,7 @@ ASSUMPTIONS = ["sections larger than 2 GiB are exercised only by the dedicated w
                "programs call resolve_cross_section_fixups only after the final flatten, and programs assembled with a known base do not flatten before the end "
                "(resolving / encoding absolute targets against a layout that later emissions invalidate is a usage error); "
                "user code never switches to the implicit .addrtab section (harness and model answer InvalidSection)",
-               "code buffers are byte lists: capacity, realloc and grow_buffer are invisible; emission is append-only (no set_offset)",
+               "code buffers are byte lists: capacity, realloc and grow_buffer are invisible; emission is append-only: set_offset is not in the op language (Props/C03O proves what survives it: overwrites clear of every logged fixup field keep the invariant; a fixup whose field was overwritten is patched blindly - user responsibility)",
                "non-field instruction bytes come from a menu of shapes (compared byte for byte with the real encoders, not proved: C01/C02)",
                "align is exercised in AlignMode::kZero only; labels are anonymous (named labels / Builder not modelled)",
                "ADRP is judged with page-aligned bases; asmjit only encodes ADRP when target and site are congruent mod 4096",
